@@ -3,6 +3,7 @@ package operations
 import (
 	"path"
 	"sort"
+	"strconv"
 	"strings"
 
 	"github.com/go-openapi/jsonpointer"
@@ -38,9 +39,20 @@ type OpRef struct {
 // OpRefs is a sortable collection of operations
 type OpRefs []OpRef
 
-func (o OpRefs) Len() int           { return len(o) }
-func (o OpRefs) Swap(i, j int)      { o[i], o[j] = o[j], o[i] }
-func (o OpRefs) Less(i, j int) bool { return o[i].Key < o[j].Key }
+func (o OpRefs) Len() int      { return len(o) }
+func (o OpRefs) Swap(i, j int) { o[i], o[j] = o[j], o[i] }
+func (o OpRefs) Less(i, j int) bool {
+	if o[i].Key != o[j].Key {
+		return o[i].Key < o[j].Key
+	}
+
+	// mangled keys are not unique (e.g. "/a-b" and "/a_b"): never leave a tie to the map iteration order
+	if o[i].Path != o[j].Path {
+		return o[i].Path < o[j].Path
+	}
+
+	return o[i].Method < o[j].Method
+}
 
 // Provider knows how to collect operations from a spec
 type Provider interface {
@@ -77,6 +89,17 @@ func GatherOperations(specDoc Provider, operationIDs []string) map[string]OpRef 
 		oo, found := operations[nm]
 		if found && oo.Method != opr.Method && oo.Path != opr.Path {
 			nm = opr.Key
+		}
+
+		if nm == opr.Key {
+			// the mangled key of another operation may be the same: do not let one operation hide the other
+			for i := 1; ; i++ {
+				oo, found = operations[nm]
+				if !found || (oo.Method == opr.Method && oo.Path == opr.Path) {
+					break
+				}
+				nm = opr.Key + strconv.Itoa(i)
+			}
 		}
 
 		if len(operationIDs) == 0 || swag.ContainsStrings(operationIDs, opr.ID) || swag.ContainsStrings(operationIDs, nm) {
